@@ -127,3 +127,87 @@ def replay_reachable():
 
 
 CONTRACTS = [GetFragmentsNames()]
+
+
+# ------------------------------------------------------------------------------------------ the fragments sent with an operation
+REACHED = z3.Function("fragments_reached_from_selection_set", V.Val, V.VL)        # what _get_fragments_names returns for a selection set
+ANY_OF = z3.Function("some_used_fragment_reaches", V.VL, V.Val, V.Val, z3.BoolSort())    # (names, definitions, name)
+
+
+def reached_from(defs, n):
+    return REACHED(V.attr_of(get(defs, n), G.FragmentDefinitionNode, "selection_set"))
+
+
+def _all_inv(rest, xs, st, I, env):
+    defs = V.lower(env.lookup("self").attrs["fragments_definitions"])
+    base = I.ctx.__dict__["garf_base"]
+    cur = V.set_elems(st["fragments_names"])
+    rs = z3.simplify(rest)
+    if z3.is_app(rs) and rs.decl().name() == "VCons":
+        x, r1 = rs.arg(0), rs.arg(1)
+        V.LEMMAS.append(ANY_OF(rs, defs, W) == z3.Or(V.vl_contains(reached_from(defs, x), W), ANY_OF(r1, defs, W)))       # defining equation at x :: rest'
+        V.LEMMAS.append(V.vl_contains(xs, x) == V.vcontains(base, x))                                                      # sorted(set) has exactly the set's elements
+        V.LEMMAS.append(z3.Implies(V.vcontains(base, x), has(defs, x)))                                                    # (instance of the assumption: recorded fragments are defined)
+    if z3.is_app(rs) and rs.decl().name() == "VNil":
+        V.LEMMAS.append(z3.Not(ANY_OF(V.VNil, defs, W)))
+    return z3.Or(V.vcontains(cur, W), ANY_OF(rest, defs, W)) == z3.Or(V.vcontains(base, W), ANY_OF(xs, defs, W))
+
+
+_all_inv.extra_mutated = [("fragments_names",)]
+
+
+class GetAllRelatedFragments(Contract):
+    """which fragment definitions are sent with the operation: the fragments used as base classes, the unpacked ones, and everything
+    reachable from the definitions of those (for an arbitrary name W, by membership).  _get_fragments_names is a stand-in here (its
+    contract is above); the definitions dictionary has an entry for every used / unpacked fragment (they were looked up before)."""
+    props = ("C02",)
+    target = MOD + "_get_all_related_fragments"
+    use_at_calls = False
+    frame_args = False
+    assume_proved = True
+    trusted = ["_get_fragments_names is an uninterpreted stand-in here (own contract above); sorted(set) = py_sorted with exactly the set's elements (instances)",
+               "every fragment recorded as used or unpacked has a definition (it was looked up by name when it was recorded)"]
+    loops = {"ResultTypesGenerator._get_all_related_fragments": _all_inv}
+
+    def setup(self, E):
+        from pyvc.interp import ModelMethod
+        defs = E.sym("fragments_definitions", DictOf(GQ.NAME, Cls(G.FragmentDefinitionNode, selection_set=Cls(G.SelectionSetNode)), name="fragment_definitions_garf"))
+        used, unpacked = E.mset("used_as_mixins0", GQ.NAME), E.mset("unpacked0", GQ.NAME)
+        s = self_obj(RT.ResultTypesGenerator, dict(fragments_definitions=defs, _fragments_used_as_mixins=used, _unpacked_fragments=unpacked))
+        base = V.vl_concat(used.elems, unpacked.elems)
+        E.ctx.garf_base = base
+        E.ctx.inputs["any_reachable_fragment_name"] = W
+        self._base, self._defs = base, defs
+        q = z3.Const("garf_q", V.Val)
+        E.assume(z3.ForAll([q], z3.Implies(V.vl_contains(base, q), has(defs.t, q))))
+
+        def gfn(I, o, a, k):
+            ss = V.lower(a[0]) if a else V.lower(k["selection_set"])
+            return MSet(REACHED(ss))
+        s.attrs["_get_fragments_names"] = ModelMethod(s, gfn, "_get_fragments_names")
+        return [s], {}
+
+    def ensures(self, A, res):
+        defs = V.lower(self._defs)
+        return {"used-and-unpacked-fragments-and-everything-reachable-from-their-definitions":
+                V.vcontains(V.set_elems(res), W) == z3.Or(V.vcontains(self._base, W), ANY_OF(models.PY_SORTED(self._base), defs, W))}
+
+    def replay_custom(self, inputs):
+        doc = G.parse("""
+            query Q { a { ...Used } }
+            fragment Used on T { x ...Inner }  fragment Inner on T { y { ...Deep } }  fragment Deep on T { z }
+            fragment Unpacked on T { ... on U { ...OnlyHere } }  fragment OnlyHere on U { v }  fragment Other on T { w }
+        """)
+        defs = {d.name.value: d for d in doc.definitions if isinstance(d, G.FragmentDefinitionNode)}
+        g = RT.ResultTypesGenerator.__new__(RT.ResultTypesGenerator)
+        g.fragments_definitions, g._fragments_used_as_mixins, g._unpacked_fragments = defs, {"Used"}, {"Unpacked"}
+        got = g._get_all_related_fragments()
+        ok = set(got) == {"Used", "Inner", "Deep", "Unpacked", "OnlyHere"}
+        return dict(inputs={"document": "one used and one unpacked fragment with nested spreads"}, failed=[] if ok else ["post.used-and-unpacked-fragments-and-everything-reachable-from-their-definitions"],
+                    undetermined=[], pre_ok=True, outcome=sorted(got), error=None)
+
+    def samples(self, tier):
+        return [dict(case="document")]
+
+
+CONTRACTS.append(GetAllRelatedFragments())
